@@ -78,8 +78,7 @@ theorem triRotB_refl (t : List (List Bytes)) : triRotB t t = true := by
   simp [triRotB]
 
 theorem sameTriangles_refl (l : List (List (List Bytes))) : sameTriangles l l = true := by
-  unfold sameTriangles
-  exact isPerm_self (fun a => triRotB_refl a.t) _
+  simp [sameTriangles, eqMultiset, eqMultisetSlow]
 
 theorem sameSet_of_mem_iff {α : Type} [BEq α] [LawfulBEq α] {l1 l2 : List α} (h : ∀ x, x ∈ l1 ↔ x ∈ l2) :
     sameSet l1 l2 = true := by
